@@ -835,18 +835,72 @@ func ruleC09_6(c *Ctx, r *Rep) {
 					continue
 				}
 				n++
-				self := false
-				for s := range sources(st.Val) {
-					if s == "path:"+k {
-						self = true
-					}
-				}
+				derived, safe := selfDerived(st.Val, k, map[ssa.Value]bool{})
+				self := derived && !safe
 				r.Check("C09.6", fmt.Sprintf("C09.6:param-store#%d@%s", n, c.Key(top(f))), st.Pos(), !self, "write-back of a resolved value",
 					"Execute rewrites its own parameter "+k[strings.Index(k, ".params."):]+" from its previous value: when the transaction is rolled back and the runner retries, the second attempt is a different (smaller) operation, yet reports success")
 			}
 		}
 	}
 	r.Floor("C09.6", n, 4)
+}
+
+// selfDerived: does v derive from the current value of the field with key k, and if so only through operations
+// that keep the set of elements (whole-slice copy, clone, conversion)? Re-slicing, appending to it, arithmetic and
+// unknown calls are not safe.
+func selfDerived(v ssa.Value, k string, seen map[ssa.Value]bool) (derived, safe bool) {
+	if seen[v] {
+		return false, true
+	}
+	seen[v] = true
+	join := func(vs ...ssa.Value) (bool, bool) {
+		d, s := false, true
+		for _, x := range vs {
+			if x == nil {
+				continue
+			}
+			dx, sx := selfDerived(x, k, seen)
+			if dx {
+				d = true
+				s = s && sx
+			}
+		}
+		return d, s
+	}
+	switch t := v.(type) {
+	case *ssa.UnOp:
+		if t.Op == token.MUL {
+			if fa, ok := t.X.(*ssa.FieldAddr); ok && valKey(fa) == k {
+				return true, true
+			}
+		}
+	case *ssa.Phi:
+		return join(t.Edges...)
+	case *ssa.Convert:
+		return join(t.X)
+	case *ssa.ChangeType:
+		return join(t.X)
+	case *ssa.Slice:
+		d, s := join(t.X)
+		if d && (t.Low != nil || t.High != nil || t.Max != nil) {
+			return true, false
+		}
+		return d, s
+	case *ssa.Call:
+		if bi, ok := t.Call.Value.(*ssa.Builtin); ok && bi.Name() == "append" && len(t.Call.Args) == 2 {
+			if d, _ := join(t.Call.Args[0]); d {
+				return true, false
+			}
+			return join(t.Call.Args[1])
+		}
+		if cal := t.Call.StaticCallee(); cal != nil && fnPkgPath(cal) == "slices" && strings.HasPrefix(cal.Name(), "Clone") {
+			return join(t.Call.Args...)
+		}
+	}
+	if sources(v)["path:"+k] {
+		return true, false
+	}
+	return false, true
 }
 
 // calledOnlyAfterCommit: closure f is handed (as an argument) to a helper whose corresponding parameter is invoked
